@@ -38,6 +38,7 @@ func hexp(s string) string {
 func genSec(g *Gen) {
 	if g.Prop == "C03" {
 		genSecSign(g)
+		genVm(g) // script VM ops (eng_vm.go)
 		return
 	}
 	genSecKeys(g)
